@@ -70,6 +70,35 @@ theorem limitHit_flatten (n : Int) (pt : Nat) (L : List (Int × Nat)) :
 theorem limit_table : Gen.WriteGuards.cooldownLimit = flattenPairs Spec.floodLimits := by decide
 
 
+/-! ### the post counter in the low four bits of the cool-down word -/
+
+theorem and15 (w : UInt32) : (w &&& 0xF).toNat = w.toNat % 16 := by
+  rw [UInt32.toNat_and]
+  exact Nat.and_two_pow_sub_one_eq_mod w.toNat 4
+
+/-- cache.AddPosttimes leaves a counter of at least one (it saturates at 15). -/
+theorem post_counts (w : UInt32) : 1 ≤ Spec.postTimes (addPosttimes w) := by
+  have m2 : Gen.WriteGuards.posttimesMask.toUInt32 = 0xF := by decide
+  unfold addPosttimes posttimesOf Spec.postTimes
+  rw [m2]
+  split
+  · rename_i h
+    rw [and15] at h
+    rw [and15, UInt32.toNat_add]
+    have := w.toNat_lt
+    simp at *
+    omega
+  · rw [and15, UInt32.toNat_or]
+    have : (w.toNat ||| 15) % 16 = 15 := by
+      have h1 : (w.toNat ||| 15) % 16 = (w.toNat % 16) ||| (15 % 16) := by
+        rw [← Nat.and_two_pow_sub_one_eq_mod _ 4, ← Nat.and_two_pow_sub_one_eq_mod _ 4, ← Nat.and_two_pow_sub_one_eq_mod _ 4, Nat.and_or_distrib_right]
+      rw [h1]
+      have hk : w.toNat % 16 < 16 := Nat.mod_lt _ (by decide)
+      have key : ∀ k : Fin 16, (k.val ||| 15 % 16) = 15 := by decide
+      exact key ⟨w.toNat % 16, hk⟩
+    simp at *
+    omega
+
 /-! ### runEvents -/
 
 /-- the guard fires on this row. -/
